@@ -29,7 +29,8 @@ REQUIRED = {"select.deselected_not_called": {"quick": 3000, "thorough": 150000},
             "local.unselected_run_emits_nothing": {"quick": 3000, "thorough": 150000},
             "nontrivial_cases": {"quick": 300, "thorough": 15000}}
 REQUIRED_SEEN = {"outline_tag_placeholder": ["<t>", "<row.index>", "<examples.index>", "<row.id>"], "dialect": ["v1", "v2", "none"],
-                 "tag_name_class": ["contains_operator_word", "contains_hash", "non_ascii_letters"], "outline_name_schema": ["{name}", "{examples.name}"]}
+                 "tag_name_class": ["contains_operator_word", "contains_hash", "non_ascii_letters"], "outline_name_schema": ["{name}", "{examples.name}"],
+                 "process_run_shape": ["toml_tags_plus_command_line", "ini_tags_plus_command_line", "wip_plus_tags"]}
 NSHARDS = {"quick": 16, "thorough": 16}
 
 
@@ -187,6 +188,50 @@ def name_schema_runs(lab, mon, rng):
                                  executed_but_not_selected=sorted((got - want).elements())[:8]))
 
 
+def process_runs(mon, rng):
+    """`python -m behave` with the tag expression coming from where users put it: --tags on top of tags in pyproject.toml /
+    behave.ini (the command line replaces them), and --wip together with --tags (the @wip term is and-ed)."""
+    import os
+    from ..lab.subproc import Project
+    gen = {"p_tag": 0.6, "p_nonpass": 0.0, "p_wip": 0.3, "max_rules": 1, "p_empty_examples": 0.0, "p_stepless": 0.0}
+    case = RB.gen_case(rng, gen=gen, p_stop=0.0, p_dry=0.0, p_noskipped=0.3, p_verbose=0.0)
+    tries = 0
+    while case["cfg"]["tags"] is None and tries < 5:
+        ast, args = RB.random_expr(rng)
+        case["cfg"]["tags"] = ast
+        case["args"] = args + [a for a in case["args"] if not a.startswith("--tags")]
+        tries += 1
+    if case["cfg"]["tags"] is None:
+        return
+    mode = rng.choice(["toml_tags_plus_command_line", "ini_tags_plus_command_line", "wip_plus_tags"])
+    cfg = dict(case["cfg"])
+    extra = []
+    proj = Project(case["program"], {})
+    try:
+        if mode == "wip_plus_tags":
+            extra = ["--wip"]
+            cfg["tags"] = ["and", case["cfg"]["tags"], ["lit", "wip"]]
+            cfg["stop"] = True
+        else:
+            other = rng.choice(["not @a", "@e", "not @b and not @c"])
+            fname, body = ("pyproject.toml", '[tool.behave]\ntags = ["%s"]\n' % other) if mode.startswith("toml") else \
+                ("behave.ini", "[behave]\ntags = %s\n" % other)
+            with open(os.path.join(proj.root, fname), "w") as fh:
+                fh.write(body)
+        res = proj.run(case["args"] + extra + ["-f", "plain"])
+    finally:
+        proj.close()
+    if res.get("timeout"):
+        mon.note("subprocess watchdog fired (inconclusive case)")
+        return
+    pred = runmodel.predict(case["program"], cfg)
+    calls = [(e[1], e[2]) for e in res["events"] if e[0] == "step"]
+    mon.case(("process", mode, RB.strip_case(case)), True)
+    mon.seen("process_run_shape", mode)
+    mon.check("process.executed_steps_are_those_of_the_selected_scenarios", calls == pred.calls,
+              lambda: RB.witness(case, mode=mode, got=calls, want=pred.calls, stdout=res["stdout"][-500:], stderr=res["stderr"][-400:]))
+
+
 def run(spec, mon):
     from ..lab.inproc import RunLab
     lab = RunLab()
@@ -252,6 +297,8 @@ def run(spec, mon):
         if i % 5 == 2:
             name_schema_runs(lab, mon, rng)
             lab._state = None
+        if i % 73 == 11 or (tier == "thorough" and i % 300 == 150):
+            process_runs(mon, rng)
 
 
 def replay(case, mon):
